@@ -59,7 +59,11 @@ func (w *World) observe(n *Node, st *State, seed uint64) (out []obs) {
 	var roots []H
 	var num uint64
 	if n.isStumpy() {
-		roots, num = n.st.Roots, n.st.NumLeaves
+		var ok bool
+		if roots, num, ok = n.smallView(); !ok {
+			add("roots", "big-part-changed", "the roots / leaf count of the untouched big trees changed (leaf count %d, offset %d)", n.st.NumLeaves, n.cfg.Big)
+			return
+		}
 	} else {
 		err, _ := guard(func() error { roots, num = n.acc.GetRoots(), n.acc.GetNumLeaves(); return nil })
 		if err != nil {
@@ -595,11 +599,12 @@ func (w *World) lightUpdate(n *Node, b *Block, nb *nodeBlk) {
 	}
 	ud := nb.ud
 	chIn := n.ch
-	g := w.fp.begin("Proof.Update", chIn, b.Adds, b.Proof.Targets, nb.rem, ud.ToDestroy, ud.NewDelHash, ud.NewDelPos, ud.NewAddHash, ud.NewAddPos, n.cp.Targets, n.cp.Proof)
+	bt := n.upSlice(b.Proof.Targets, b.Pre.N)
+	g := w.fp.begin("Proof.Update", chIn, b.Adds, bt, nb.rem, ud.ToDestroy, ud.NewDelHash, ud.NewDelPos, ud.NewAddHash, ud.NewAddPos, n.cp.Targets, n.cp.Proof)
 	var out []H
 	err, _ := guard(func() error {
 		var e error
-		out, e = n.cp.Update(chIn, b.Adds, b.Proof.Targets, nb.rem, ud)
+		out, e = n.cp.Update(chIn, b.Adds, bt, nb.rem, ud)
 		return e
 	})
 	g.end()
@@ -683,15 +688,15 @@ func (w *World) lightMismatch(n *Node, st *State) (string, string) {
 		if !ok {
 			return "held-dead", "holds a leaf that is not live"
 		}
-		if ro.Pos(L.R) != n.cp.Targets[i] {
-			return "wrong-pos", fmt.Sprintf("leaf %s paired with position %d, true position %d", short(h), n.cp.Targets[i], ro.Pos(L.R))
+		if n.up(ro.Pos(L.R), st.N) != n.cp.Targets[i] {
+			return "wrong-pos", fmt.Sprintf("leaf %s paired with position %d, true position %d (small forest: %d)", short(h), n.cp.Targets[i], n.up(ro.Pos(L.R), st.N), ro.Pos(L.R))
 		}
 	}
 	want, _ := L.CanonProof(n.ch)
 	if !eqHashes(want.Proof, n.cp.Proof) {
 		return "noncanonical", fmt.Sprintf("proof has %d hashes, canonical has %d (or contents differ)", len(n.cp.Proof), len(want.Proof))
 	}
-	stump := u.Stump{Roots: append([]H(nil), L.Roots...), NumLeaves: st.N}
+	stump := n.bigStump(st)
 	err, _ := guard(func() error { _, e := u.Verify(stump, n.ch, n.cp); return e })
 	if err != nil {
 		return "verify-reject", err.Error()
@@ -723,7 +728,7 @@ func (w *World) lightResync(n *Node, st *State) {
 	sort.Slice(hs, func(i, j int) bool { return L.LeafAt[hs[i]].Pos(L.R) < L.LeafAt[hs[j]].Pos(L.R) })
 	pr, _ := L.CanonProof(hs)
 	n.ch = hs
-	n.cp = pr
+	n.cp = n.upProof(pr, st.N)
 }
 
 func (w *World) lightUndo(n *Node, b *Block) {
@@ -734,11 +739,13 @@ func (w *World) lightUndo(n *Node, b *Block) {
 	ud := nb.ud
 	chIn := n.ch
 	numLeaves := b.Post.N
-	g := w.fp.begin("Proof.Undo", chIn, b.Proof.Targets, b.Dels, ud.ToDestroy, b.Proof.Proof, n.cp.Targets, n.cp.Proof)
+	bp := n.upProof(b.Proof, b.Pre.N)
+	numLeaves += n.cfg.Big
+	g := w.fp.begin("Proof.Undo", chIn, bp.Targets, b.Dels, ud.ToDestroy, bp.Proof, n.cp.Targets, n.cp.Proof)
 	var out []H
 	err, _ := guard(func() error {
 		var e error
-		out, e = n.cp.Undo(uint64(len(b.Adds)), numLeaves, b.Proof.Targets, b.Dels, chIn, ud.ToDestroy, b.Proof)
+		out, e = n.cp.Undo(uint64(len(b.Adds)), numLeaves, bp.Targets, b.Dels, chIn, ud.ToDestroy, bp)
 		return e
 	})
 	g.end()
